@@ -44,6 +44,19 @@ def family(ctx: Ctx) -> List[Tuple[str, str, Dict[str, Any]]]:
         except ValueError:
             pass
     progs += tg.slice_of(all_p, ctx.seed, 24 if ctx.quick else 3)
+    # switch / match routers (TEAL v8): departures of a multi-way branch
+    e = tg.Emitter(tg.Program(()))
+    n2 = 0
+    for router in (["txn NumAppArgs", "switch m1 m2"], ["int 3", "int 5", "txn NumAppArgs", "match m1 m2"], ["txn NumAppArgs", "switch m1 m2 m1"]):
+        for b1, b2 in itertools.product([a_rk, a_gi, a_fee], [a_snd, a_gs]):
+            for pro in ((), (a_gs,)):
+                n2 += 1
+                lines = ["#pragma version 8"]
+                for c in pro:
+                    lines += e.cond(c) + ["assert"]
+                lines += router + ["err", "m1:"] + e.cond(b1) + ["assert", "callsub helper", "int 1", "return", "m2:"] + e.cond(b2) + ["bz no", "int 1", "return", "no:", "err",
+                                                                                                                                  "helper:", "txn Amount", "pop", "retsub"]
+                progs.append((f"router/{n2}", "\n".join(lines) + "\n", spec))
     # three-way dispatcher with a shared prologue (the probe of DESIGN.md), hand-written layouts, generic shapes
     at = tg.Atom(("global", "GroupSize"), "==", ("int", 2))
     for name, src in tg.layout_programs(at):
